@@ -55,6 +55,8 @@ def histories(strict=False, guaranteed_bias=False, max_ticks=40):
         "cb_sends_every": st.sampled_from([0, 0, 2, 3]),
         # the client application runs a frame (update() + getMessages()) only every k-th step: 60 Hz server, 60/k Hz client
         "client_every": st.sampled_from([1, 1, 1, 2, 3, 6]),
+        # the application passes ONE callable (a bound method, say) to several unretried sends queued in the same frame
+        "shared_cb": st.sampled_from([0, 0, 2, 3]),
         # where the (virtual) clock starts: a small number, or a present-day epoch value (float spacing 2.4e-7 s)
         "t0": st.sampled_from([1000.0, 1000.0, 1.7e9]),
         "burst": st.one_of(st.none(), st.none(), st.none(), st.fixed_dictionaries({
@@ -194,7 +196,20 @@ def run(ctx, c, oracle, per_step=None, link_setup=None, payload_fn=None):
 
         window = {"c": [], "s": []}    # strict: (t, bytes) submitted per side during the last second
         burst = c.get("burst")
+        f.shared_sends = f.shared_calls = 0
+
+        def shared_cb(ok):
+            f.shared_calls += 1
         for ti in range(n_adv):
+            if c.get("shared_cb") and ti % 3 == 1 and ch.udp.connected() and f.shared_sends < 60:
+                for j in range(c["shared_cb"]):
+                    pl = payload_fn(700000 + ti * 8 + j, 12 + j)
+                    w.ledger.sent(("c", ch.laddr), ("s", ch.laddr), pl, "NONE", w.clock.t, "client.send")
+                    try:
+                        ch.udp.send(pl, retry=0, callback=shared_cb)
+                        f.shared_sends += 1
+                    except Exception:  # noqa - not connected any more
+                        pass
             ops_now = list(ticks[ti])
             if burst and min(burst["tick"], n_adv - 1) == ti:
                 ops_now += [[burst["side"], ["abs", burst["size"]], burst["retry"], 0]] * burst["count"]
